@@ -55,7 +55,7 @@ type Solver struct {
 	nvars   int
 	nufs    int
 	stats   SolverStats
-	cache   map[string]Verdict
+	cache   map[string]cacheEnt
 	lastErr string
 	timeout int // ms
 	seed    int
@@ -75,7 +75,7 @@ func solverArgv(kind string) []string {
 }
 
 func NewSolver(kind string, ts *TermStore, timeoutMs, seed int) *Solver {
-	s := &Solver{name: kind, argv: solverArgv(kind), ts: ts, cache: map[string]Verdict{}, timeout: timeoutMs, seed: seed}
+	s := &Solver{name: kind, argv: solverArgv(kind), ts: ts, cache: map[string]cacheEnt{}, timeout: timeoutMs, seed: seed}
 	s.start()
 	return s
 }
@@ -197,16 +197,35 @@ func cacheKey(cs []*Term) string {
 	return sb.String()
 }
 
+type cacheEnt struct {
+	v Verdict
+	m map[string]uint64
+}
+
 // Check decides satisfiability of the conjunction of cs (with result cache).
 func (s *Solver) Check(cs []*Term) Verdict {
-	key := cacheKey(cs)
-	if v, ok := s.cache[key]; ok {
-		s.stats.CacheHit++
-		return v
-	}
-	v, _ := s.query(cs, nil)
-	s.cache[key] = v
+	v, _ := s.CheckModel(cs)
 	return v
+}
+
+// CheckModel is Check that also returns, when sat, values for the variables occurring in cs.
+func (s *Solver) CheckModel(cs []*Term) (Verdict, map[string]uint64) {
+	key := cacheKey(cs)
+	if e, ok := s.cache[key]; ok {
+		s.stats.CacheHit++
+		return e.v, e.m
+	}
+	var vs varset
+	for _, c := range cs {
+		vs = vs.union(c.vars)
+	}
+	var vars []*Term
+	for _, i := range vs.list() {
+		vars = append(vars, s.ts.vars[i])
+	}
+	v, m := s.query(cs, vars)
+	s.cache[key] = cacheEnt{v, m}
+	return v, m
 }
 
 // Model decides satisfiability and, when sat, returns values for the requested variables.
